@@ -32,6 +32,8 @@ func checkC10(r *Run) propMeta {
 	checkRenderStateless(r)
 	checkNamespaceSeparator(r)
 	checkHoistUnderConjunctionOnly(r)
+	checkBuilderCopiesCriteria(r)
+	checkEscapeOnce(r)
 	r.Floor("C10-R1-precedence", 6)
 	r.Floor("C10-R2-emitter-field", 60)
 	r.Floor("C10-R3-literal-class", 2)
